@@ -28,6 +28,10 @@ BOOKIE = re.compile(r"\bbookie\s*\.\s*(write|read|blocking_write|blocking_read)\
 BOOKED = re.compile(r"(\bbooked\w*|\.\s*booked\s*\(\s*\))\s*\.\s*(write|read|blocking_write|blocking_read|write_owned|read_owned)\b\s*(::\s*<[^>]*>)?\s*\(")
 
 
+CHARLIT = re.compile(r"'(\\.[^']*|[^'\\])'")
+RAWSTR = re.compile(r'r(#*)"')
+
+
 def strip(src):
     """blank out comments, string and char literals (same length, newlines kept)"""
     out = list(src)
@@ -50,7 +54,7 @@ def strip(src):
                 else: j += 1
             blank(i, j); i = j
         elif c == "r" and re.match(r'r#*"', src[i:i + 8]) and (i == 0 or not (src[i - 1].isalnum() or src[i - 1] == "_")):
-            m = re.match(r'r(#*)"', src[i:])
+            m = RAWSTR.match(src, i)
             end = '"' + m.group(1)
             j = src.find(end, i + len(m.group(0)))
             j = n if j < 0 else j + len(end)
@@ -61,7 +65,7 @@ def strip(src):
                 j += 2 if src[j] == "\\" else 1
             blank(i + 1, min(j, n)); i = j + 1
         elif c == "'":
-            m = re.match(r"'(\\.[^']*|[^'\\])'", src[i:])
+            m = CHARLIT.match(src, i)
             if m:
                 blank(i + 1, i + len(m.group(0)) - 1); i += len(m.group(0))
             else:
@@ -247,6 +251,8 @@ def guard_life(s, site, call_close, fn_lo, fn_hi):
 
 def scan_file(path):
     src = open(path, encoding="utf-8").read()
+    if not (CONN.search(src) or BOOKIE.search(src) or BOOKED.search(src)):
+        return {}, src          # (a site inside a comment or string only is dropped by strip below anyway)
     s = strip(src)
     tests = test_regions(s)
     fns = functions(s)
